@@ -279,21 +279,25 @@ def judge(case: dict, obs: dict, verd: fx.Verdicts, stats: dict) -> None:
 
 
 def select(cases: list[dict], tier: str, seed: int):
-    """thorough: everything, the matrix probes only where a transposition or a matrix is predicted;
-    quick: every predicted transposition + a stratified sample of the rest."""
+    """thorough: every case; quick: a stratified sample of the predicted transpositions and of the rest."""
     pos = [c for c in cases if c['tok']]
     rest = [c for c in cases if not c['tok']]
     if tier == 'quick':
-        pos, spos = fx.stratified_sample(pos, stratum, 12, seed)
-        rest, srest = fx.stratified_sample(rest, stratum, 1, seed + 1)
+        pos, spos = fx.stratified_sample(pos, stratum, 40, seed)
+        rest, srest = fx.stratified_sample(rest, stratum, 2, seed + 1)
         rng = random.Random(seed)
-        if len(rest) > 1400:
-            rest = rng.sample(rest, 1400)
+        if len(rest) > 2500:
+            rest = rng.sample(rest, 2500)
         strata = {'transposed_strata': len(spos), 'rejected_strata': len(srest)}
+        probe = {c['id'] for c in rest}
     else:
-        strata = None
+        # every case is replayed; the (compiling) matrix probe of the strings the algorithm rejects is
+        # done on a stratified sample of those that carry a matrix
+        sample, sprobe = fx.stratified_sample([c for c in rest if c['hasden']], stratum, 80, seed + 2, cap=30000)
+        probe = {c['id'] for c in sample}
+        strata = {'matrix_probe_strata_of_rejected_strings': len(sprobe), 'matrix_probes_of_rejected_strings': len(probe)}
     for c in rest:
-        c['light'] = not c['hasden']
+        c['light'] = not (c['hasden'] and c['id'] in probe)
     picked = pos + rest
     picked.sort(key=lambda c: (sub_of(c), c['mode'], c['eb'], c['tree']))
     return picked, strata
